@@ -308,6 +308,11 @@ def check(ix, rep):
             rep.analysed(kf)
             nst += SS.check_function(ix, rep, kf, opn, slot_prefix='dense-offline:')
     rep.floor('abstract states of the dense sliding-window merge step', nst, 72)
+    for which in ('since', 'until'):
+        kf = mdense.functions.get(which + '_timed_operation')
+        if kf is not None:
+            rep.analysed(kf)
+            SS.check_compose(ix, rep, kf, which)
     explanation = (
         'Lattice-fragment argument. For each of the four monitors the operator summaries show (a) every comparison\'s robustness is the '
         'signed distance whose sign agrees with the Boolean comparison, (b) `not` is negation, (c) every other Boolean and temporal operator '
